@@ -5,7 +5,7 @@ class C17(FloorProp):
     id = 'C17'
     profile = 'c17'
     design_ref = 'DESIGN.md section 4 / C17'
-    budgets = {'quick': 8000, 'thorough': 300000}
+    budgets = {'quick': 40000, 'thorough': 800000}
 
 
 PROP = C17()
